@@ -3976,10 +3976,17 @@ class SFTPClient:
                     sparse: bool, block_size: int, max_requests: int,
                     progress_handler: SFTPProgressHandler,
                     error_handler: SFTPErrorHandler,
-                    remote_only: bool) -> None:
+                    remote_only: bool, symlinks: Set[bytes]) -> None:
         """Copy a file, directory, or symbolic link"""
 
         try:
+            if dstpath in symlinks:
+                # Never write through a symbolic link created earlier in
+                # this copy, as its target was chosen by the source
+                raise SFTPBadMessage('Duplicate name in copy: ' +
+                                     dstpath.decode('utf-8',
+                                                    'backslashreplace'))
+
             filetype = srcattrs.type
 
             if follow_symlinks and filetype == FILEXFER_TYPE_SYMLINK:
@@ -4017,7 +4024,7 @@ class SFTPClient:
                                      srcname.attrs, preserve, recurse,
                                      follow_symlinks, sparse, block_size,
                                      max_requests, progress_handler,
-                                     error_handler, remote_only)
+                                     error_handler, remote_only, symlinks)
 
                 self.logger.info('  Finished copy of directory %s to %s',
                                  srcpath, dstpath)
@@ -4029,6 +4036,7 @@ class SFTPClient:
                 self.logger.info('    Target path: %s', targetpath)
 
                 await dstfs.symlink(targetpath, dstpath)
+                symlinks.add(dstpath)
             else:
                 self.logger.info('  Copying file %s to %s', srcpath, dstpath)
 
@@ -4120,6 +4128,8 @@ class SFTPClient:
             raise exc(dstpath.decode('utf-8', 'backslashreplace') +
                       ' must be a directory')
 
+        symlinks: Set[bytes] = set()
+
         for srcname in srcnames:
             srcfile = cast(bytes, srcname.filename)
             basename = srcfs.basename(srcfile)
@@ -4134,7 +4144,7 @@ class SFTPClient:
             await self._copy(srcfs, dstfs, srcfile, dstfile, srcname.attrs,
                              preserve, recurse, follow_symlinks, sparse,
                              block_size, max_requests, progress_handler,
-                             error_handler, remote_only)
+                             error_handler, remote_only, symlinks)
 
     async def get(self, remotepaths: _SFTPPaths,
                   localpath: Optional[_SFTPPath] = None, *,
